@@ -161,6 +161,55 @@ func H_C23_list() {
 	verifrt.Reach("returned")
 }
 
+// H_C23_tombstoned: tenant filtering composed with tombstones. One repository of the compound
+// shard (symbolic position, or none) is tombstoned; a tenant's or tenant-less search and listing
+// still name only the requester's live repositories in Files, RepoURLs, LineFragments and Repos.
+func H_C23_tombstoned() {
+	verifrt.ClockConcrete()
+	b := verifThreeRepos()
+	var owner [3]int
+	for i := 0; i < 3; i++ {
+		owner[i] = verifrt.IntRange("owner", 1, 2)
+		b.repoList[i].TenantID = owner[i]
+	}
+	tomb := verifrt.Concretize(verifrt.IntRange("tomb", -1, 2))
+	if tomb >= 0 {
+		b.repoList[tomb].Tombstone = true
+	}
+	d := verifLoad(verifWriteShard(b, "verif-compound.zoekt"))
+	kind := verifrt.Concretize(verifrt.IntRange("ctx", 0, 2))
+	ctx := verifC23Ctx(kind)
+	nq := verifrt.Param("tombQueries", 3, verifC23Queries)
+	k := verifrt.Concretize(verifrt.IntRange("query", 0, nq-1))
+	visible := func(i int) bool { return i >= 0 && i < 3 && kind != 0 && owner[i] == kind && i != tomb }
+	res, err := d.Search(ctx, verifC23Query(k), &zoekt.SearchOptions{})
+	verifrt.Assert(err == nil, "search succeeds")
+	for _, f := range res.Files {
+		verifrt.Assert(visible(int(f.RepositoryID)-1), "every returned file belongs to a live repository of the requesting tenant")
+	}
+	for name := range res.RepoURLs {
+		verifrt.Assert(visible(verifRepoIndex(name)), "RepoURLs names only live repositories of the requesting tenant")
+	}
+	for name := range res.LineFragments {
+		verifrt.Assert(visible(verifRepoIndex(name)), "LineFragments names only live repositories of the requesting tenant")
+	}
+	if k == 0 {
+		n := 0
+		for i := 0; i < 3; i++ {
+			if visible(i) {
+				n += 2
+			}
+		}
+		verifrt.Assert(len(res.Files) == n, "a tenant still sees all files of its live repositories")
+	}
+	rl, err := d.List(ctx, verifC23Query(k), &zoekt.ListOptions{Field: zoekt.RepoListFieldRepos})
+	verifrt.Assert(err == nil, "list succeeds")
+	for _, e := range rl.Repos {
+		verifrt.Assert(visible(int(e.Repository.ID)-1), "only live repositories of the requesting tenant are listed")
+	}
+	verifrt.Reach("returned")
+}
+
 func H_C23_twin() {
 	verifrt.ClockConcrete()
 	d, _ := verifC23Shard()
